@@ -178,3 +178,23 @@ package isaacdatabase
 //@   requires forall(string(q), has(facts, q) ==> facts[q] < opsindex)
 //@   fnparam nfilter pure
 //@   ensures [local-bounded] r1 == nil ==> opsindex <= limit && (opsindex == limit ==> !r0)
+
+// cleanup deletes only entries that are at least `deep` heights below the
+// newest stored height (or whose height cannot be read from the key)
+//@ func heightFromKey
+//@   trusted
+//@   pure
+//@ func (*TempPool).cleanByHeight
+//@   prop C24
+//@   requires db != nil && db.baseLeveldb != nil && deep >= 0 && deep < 1000 && (db.baseLeveldb.pst != nil ==> db.baseLeveldb.pst.Storage != nil && len(db.baseLeveldb.pst.prefix) < 1099511627776)
+//@   callsite Delete requires j == nil || unbox(j, base.Height) <= height
+// keyf only records further deletions in the batch (opaque state here); it cannot reach the collected list
+//@   fnparam keyf pure
+//@   hof Iter#0 loop invariant (keys == nil || private(keys)) && top >= -1
+//@   hof Iter#0 loop invariant forall(q, 0 <= q && q < len(keys) ==> typeis(keys[q][0], []byte) && len(unbox(keys[q][0], []byte)) < 1099511627776 && typeis(keys[q][1], []byte) && (keys[q][2] == nil || (typeis(keys[q][2], base.Height) && unbox(keys[q][2], base.Height) <= top)))
+//@   loop 0 invariant [a] height <= top
+//@   loop 0 invariant [b] height == top - (rangeindex + 1) || (height == 0 && top - (rangeindex + 1) <= 0)
+//@   loop 0 invariant [c] top >= 3
+//@   loop 1 invariant height == 0 || height + deep <= pre(top)
+//@   loop 1 invariant forall(q, 0 <= q && q < len(keys) ==> typeis(keys[q][0], []byte) && len(unbox(keys[q][0], []byte)) < 1099511627776 && typeis(keys[q][1], []byte) && (keys[q][2] == nil || (typeis(keys[q][2], base.Height) && unbox(keys[q][2], base.Height) <= pre(top))))
+//@   loop 1 invariant batch != nil && batch.Batch != nil && len(batch.prefix) < 1099511627776 && private(keys)
